@@ -136,6 +136,10 @@ unsigned Sieve::iterator::next_prime()
             return _limit + 1;
         }
     }
+    if (_limit > 0 and _primes[_index] > _limit) {
+        // primes beyond _limit may already be cached by an earlier request
+        return _limit + 1;
+    }
     return _primes[_index++];
 }
 
